@@ -159,6 +159,12 @@ impl ActTask for Act {
             }
 
             if count == tasks.len() {
+                // an act that waits for its sub-process to return is closed by that return,
+                // not by its own children (e.g. the steps of a timeout rule)
+                if !task.is_auto_complete() {
+                    return Ok(false);
+                }
+
                 if !task.state().is_completed() {
                     task.set_state(TaskState::Completed);
                 }
